@@ -204,6 +204,7 @@ Abs(e) ==
   CASE e.k = "n"    -> [v |-> e.n, vlo |-> e.n, lo |-> BitLen(e.n), hi |-> BitLen(e.n), seq |-> FALSE]
     [] e.k = "p10"  -> [v |-> IF e.n <= 9 THEN PowSmall(10, e.n) ELSE -1, vlo |-> CAPB, lo |-> 3 * e.n, hi |-> 4 * e.n, seq |-> FALSE]
     [] e.k = "s"    -> [v |-> -1, vlo |-> 0, lo |-> e.n, hi |-> e.n, seq |-> TRUE]
+    [] e.k = "neg"  -> LET a == Abs(e.a) IN [v |-> IF a.v = 0 THEN 0 ELSE -1, vlo |-> 0, lo |-> a.lo, hi |-> a.hi, seq |-> FALSE]      \* -(a): same size, sign unknown to the model
     [] e.k = "pow"  -> LET a == Abs(e.a)  b == Abs(e.b) IN
                        IF a.v \in {0, 1} \/ b.v = 0 THEN [v |-> IF b.v = 0 THEN 1 ELSE a.v, vlo |-> 0, lo |-> 0, hi |-> 1, seq |-> FALSE]
                        ELSE IF b.v >= 0 THEN
@@ -226,8 +227,8 @@ SafeLimit == 4096           \* results up to this size must simply be computed (
 RECURSIVE MaxLo(_)
 RECURSIVE MaxHi(_)
 Max2(x, y) == IF x > y THEN x ELSE y
-MaxLo(e) == IF e.k \in {"n", "p10", "s"} THEN Abs(e).lo ELSE IF e.k = "fact" THEN Max2(Abs(e).lo, MaxLo(e.a)) ELSE Max2(Abs(e).lo, Max2(MaxLo(e.a), MaxLo(e.b)))
-MaxHi(e) == IF e.k \in {"n", "p10", "s"} THEN Abs(e).hi ELSE IF e.k = "fact" THEN Max2(Abs(e).hi, MaxHi(e.a)) ELSE Max2(Abs(e).hi, Max2(MaxHi(e.a), MaxHi(e.b)))
+MaxLo(e) == IF e.k \in {"n", "p10", "s"} THEN Abs(e).lo ELSE IF e.k = "neg" THEN MaxLo(e.a) ELSE IF e.k = "fact" THEN Max2(Abs(e).lo, MaxLo(e.a)) ELSE Max2(Abs(e).lo, Max2(MaxLo(e.a), MaxLo(e.b)))
+MaxHi(e) == IF e.k \in {"n", "p10", "s"} THEN Abs(e).hi ELSE IF e.k = "neg" THEN MaxHi(e.a) ELSE IF e.k = "fact" THEN Max2(Abs(e).hi, MaxHi(e.a)) ELSE Max2(Abs(e).hi, Max2(MaxHi(e.a), MaxHi(e.b)))
 Nn(x) == [k |-> "n", n |-> x]
 BLeaves == {Nn(0), Nn(1), Nn(2), Nn(9), Nn(10), Nn(99), Nn(100000), [k |-> "p10", n |-> 9], [k |-> "p10", n |-> 30], [k |-> "s", n |-> 1], [k |-> "s", n |-> 3]}
 B1 == {[k |-> o, a |-> x, b |-> y] : o \in {"pow", "mul"}, x \in BLeaves, y \in BLeaves} \cup {[k |-> "fact", a |-> x] : x \in BLeaves \ {[k |-> "s", n |-> 1], [k |-> "s", n |-> 3]}}
@@ -237,7 +238,11 @@ Towers == {[k |-> "pow", a |-> x, b |-> [k |-> "pow", a |-> y, b |-> z]] : x \in
           \cup {[k |-> "mul", a |-> [k |-> "mul", a |-> [k |-> "s", n |-> 3], b |-> x], b |-> y] : x \in {Nn(100000), [k |-> "p10", n |-> 9]}, y \in {Nn(9), Nn(100000)}}
           \cup {[k |-> "fact", a |-> [k |-> "fact", a |-> x]] : x \in {Nn(2), Nn(9), Nn(10)}}
           \cup {[k |-> "mul", a |-> x, b |-> [k |-> "pow", a |-> Nn(10), b |-> y]] : x \in {[k |-> "s", n |-> 1], [k |-> "s", n |-> 3]}, y \in {Nn(2), Nn(9), Nn(10), Nn(99)}}
-Bombs == B1ok \cup Towers
+Ng(x) == [k |-> "neg", a |-> x]
+Negs == {[k |-> "pow", a |-> Ng(x), b |-> y] : x \in {Nn(1), Nn(2), Nn(3), Nn(10), [k |-> "p10", n |-> 9]}, y \in {Nn(2), Nn(99), Nn(100000), [k |-> "p10", n |-> 9], [k |-> "pow", a |-> Nn(9), b |-> Nn(9)]}}
+        \cup {[k |-> "mul", a |-> Ng(x), b |-> y] : x \in {Nn(3), [k |-> "p10", n |-> 30]}, y \in {[k |-> "p10", n |-> 30], [k |-> "pow", a |-> Nn(10), b |-> Nn(100000)]}}
+        \cup {Ng([k |-> "pow", a |-> Nn(9), b |-> [k |-> "pow", a |-> Nn(9), b |-> Nn(9)]]), [k |-> "pow", a |-> Nn(2), b |-> Ng(Nn(2))]}
+Bombs == B1ok \cup Towers \cup Negs
 BombCase(e) == [ast |-> e, lo |-> MaxLo(e), hi |-> MaxHi(e), alo |-> Abs(e).lo, ahi |-> Abs(e).hi, bomb |-> MaxLo(e) > BombLimit, safe |-> MaxHi(e) <= SafeLimit]
 
 ===============================================================================
